@@ -413,7 +413,19 @@ func (a Int) M__imul__(other Object) (Object, error) {
 	return a.M__mul__(other)
 }
 
+// Returns whether a converts to a float exactly
+func (a Int) isExactFloat() bool {
+	return a >= -(1<<float64precision) && a <= 1<<float64precision
+}
+
 func (a Int) M__truediv__(other Object) (Object, error) {
+	if b, ok := convertToInt(other); ok && !(a.isExactFloat() && b.isExactFloat()) {
+		// the quotient of the two floats would be rounded twice
+		return bigIntTrueDiv(big.NewInt(int64(a)), big.NewInt(int64(b)))
+	}
+	if b, ok := other.(*BigInt); ok {
+		return bigIntTrueDiv(big.NewInt(int64(a)), (*big.Int)(b))
+	}
 	b, err := MakeFloat(other)
 	if err != nil {
 		return nil, err
@@ -427,6 +439,12 @@ func (a Int) M__truediv__(other Object) (Object, error) {
 }
 
 func (a Int) M__rtruediv__(other Object) (Object, error) {
+	if b, ok := convertToInt(other); ok && !(a.isExactFloat() && b.isExactFloat()) {
+		return bigIntTrueDiv(big.NewInt(int64(b)), big.NewInt(int64(a)))
+	}
+	if b, ok := other.(*BigInt); ok {
+		return bigIntTrueDiv((*big.Int)(b), big.NewInt(int64(a)))
+	}
 	b, err := MakeFloat(other)
 	if err != nil {
 		return nil, err
